@@ -254,10 +254,14 @@ def _fault_case(args):
                     f"{o.name} exists, loads, but differs from the complete "
                     f"result (task status: {res['status']}, {res['exc']})",
                     seam=seam)
-        if res["status"] == "ok" and complete != len(outs):
+        # (A task that swallows the injected error and returns without an
+        # output leaves "output absent": allowed by the property, so it is
+        # not reported.  Only a fault-free run must produce its outputs.)
+        if res["status"] == "ok" and not res["fired"] \
+                and complete != len(outs):
             bad("success-without-output",
-                f"task returned normally but only {complete}/{len(outs)} "
-                f"complete outputs exist", seam=seam)
+                f"no fault fired, the task returned normally, but only "
+                f"{complete}/{len(outs)} complete outputs exist", seam=seam)
         allowed = set(ins) | set(outs)
         for p in d.rglob("*"):
             if p.is_file() and p not in allowed and not p.name.endswith(
@@ -273,8 +277,8 @@ def _fault_case(args):
 def _outpath_case(args):
     """Output paths that need the suffix correction, or that collide with
     an input (as given, or after the correction): whatever the task does,
-    the inputs stay byte-identical, and a task that returns normally has
-    written a complete result to the corrected path."""
+    the inputs stay byte-identical, and every .rtdc file found afterwards
+    is complete."""
     task, how, scratch = args
     from dclab import cli
     d = _fresh_dir(scratch, f"o_{task}_{how}")
@@ -292,8 +296,6 @@ def _outpath_case(args):
                  "input-stem": first.with_suffix(""),
                  "input-stem-other-suffix": first.with_suffix(".new"),
                  }[how]
-        want = given if given.suffix == ".rtdc" else given.with_name(
-            given.name + ".rtdc")
         before = {p: sha(p) for p in ins}
         fn = getattr(cli, task)
         try:
@@ -315,23 +317,18 @@ def _outpath_case(args):
                     where, "input-modified", case,
                     f"{task} with output path '{given.name}' ({how}): "
                     f"input {p.name} changed (task: {status[:120]})", tags))
-        if status == "ok":
-            if want in ins:
-                pass        # reported above if the input was touched
-            elif not want.exists():
+        # Where exactly the result goes for a path without the .rtdc
+        # suffix is the tool's business; whatever .rtdc file exists
+        # afterwards (apart from the inputs) must be complete.
+        produced = [x for x in d.rglob("*.rtdc") if x not in ins]
+        for x in produced:
+            try:
+                content_digest(x)
+            except BaseException as e:
                 out.append(violation(
-                    where, "success-without-output", case,
-                    f"{task} returned normally for '{given.name}' but "
-                    f"{want.name} does not exist; directory: "
-                    f"{sorted(x.name for x in d.iterdir())}", tags))
-            else:
-                try:
-                    content_digest(want)
-                except BaseException as e:
-                    out.append(violation(
-                        where, "partial-output", case,
-                        f"{want.name} is not loadable: "
-                        f"{type(e).__name__}: {e}", tags))
+                    where, "partial-output", case,
+                    f"{x.name} (task: {status[:80]}) is not loadable: "
+                    f"{type(e).__name__}: {e}", tags))
     finally:
         shutil.rmtree(d, ignore_errors=True)
     return out
